@@ -86,6 +86,27 @@ ShapeLemma == (Family = "pair" /\ fresh /\ Live /\ inp.cfg.b = "chunked" /\ "F16
                 \/ AbsSeekShape(inp.P.ctrl)
                 \/ \A k \in 1..Len(inp.P.ctrl) : inp.P.ctrl[k][3] = 0
 
+\* ---- unit checks of the 64-bit position arithmetic (evaluated once) -----------
+M2s == <<2, 0, 0, 0, 0, 0, 0, 128>>                      \* -2 in sign-magnitude
+M2c == <<254, 255, 255, 255, 255, 255, 255, 255>>        \* -2 in two's complement = -(2^63 - 2) in sign-magnitude
+P2c == <<254, 255, 255, 255, 255, 255, 255, 127>>        \* +(2^63 - 2)
+ASSUME /\ BigOf(0 - 1) = <<0 - 1, W - 1, W - 1>> /\ Near(BigOf(0 - 1)) = 0 - 1
+       /\ Near(BigOf(0 - W)) = 0 - W /\ Near(BigOf(W - 1)) = W - 1 /\ Near(BigOf(W)) = 2 * W /\ Near(BigOf(0 - W - 1)) = 2 * W
+       /\ BigAdd(BigOf(5), BigNeg(BigOf(7))) = BigOf(0 - 2)
+       /\ BigAdd(BigOf(1073741824), BigOf(1073741824)) = <<0, 128, 0>>
+       /\ Offtin64(M2s, 1) = BigOf(0 - 2) /\ Offtin(M2s, 1) = 0 - 2 /\ Small8(M2s, 1)
+       /\ Offtin64(M2c, 1) = <<0 - 32768, 0, 2>> /\ Near(Offtin64(M2c, 1)) = 2 * W /\ ~Small8(M2c, 1)
+       /\ BigAdd(Offtin64(M2c, 1), Offtin64(P2c, 1)) = BigOf(0)
+       /\ Size8(M2c, 1) = 0 - 1 /\ Size8(P2c, 1) = 1073741824 /\ Size8(M2s, 1) = 0 - 2
+\* a seek far away and back again is exact; without the way back every read is outside the old file
+ASSUME LET far == <<0 - 70000, 5, 9>>
+       IN /\ ApplyBig(<<5>>, Patch(<<<<0, 0, far>>, <<0, 0, BigNeg(far)>>, <<1, 0, BigOf(0)>>>>, <<1>>, <<>>, 1)) = Good(<<6>>)
+          /\ ApplyBig(<<5>>, Patch(<<<<0, 0, far>>, <<1, 0, BigOf(0)>>>>, <<1>>, <<>>, 1)) = Good(<<1>>)
+          /\ ApplyBig(<<5>>, Patch(<<<<0, 0, BigOf(0 - 1)>>, <<2, 0, BigOf(0)>>>>, <<1, 1>>, <<>>, 2)) = Good(<<1, 6>>)
+          /\ ApplyBig(<<5>>, Patch(<<<<1073741824, 0, BigOf(0)>>>>, <<1>>, <<>>, 1)) = Fail
+          /\ ApplyBig(<<5>>, CHOOSE P \in {Patch(CtrlBigOf(<<1, 0, 0, 0, 0, 0, 0, 0>> \o <<0, 0, 0, 0, 0, 0, 0, 0>> \o M2c), <<1>>, <<>>, 1)} : TRUE)
+               = Good(<<6>>)
+
 \* ---- program emission -------------------------------------------------------
 Emit ==
   fresh =>
